@@ -179,3 +179,62 @@ def popped_row_untouched_rule(chk, P):
             if st["s"] == "assign" and st["lhs"]["l"] in holders and st["lhs"]["p"]:
                 hits.append("assignment to %s%s" % (gr.local_name(st["lhs"]["l"]), "".join(".%s" % e.get("f") for e in st["lhs"]["p"] if isinstance(e, dict) and "f" in e)))
     chk.require(bool(holders) and not hits, "ORG", "ORG:get_row:popped-row-not-modified", "nothing in get_row writes into the row between the pop and the generators", "get_row modifies the popped row before the generators read it: %s" % hits)
+
+
+# ---- plumbing: what the parser produced is what the interpreter runs ---------------------------------------------
+_HP = "try(HeaderParser::parse(HeaderParser::new(input)))"
+_PARSER = "Parser::from(HeaderParser::new(input), %s.0)" % _HP
+PLUMBING = {
+    # (ADT, constructing function): {field: the term it is built from}
+    ("parsed_test_case::ParsedTestCase", "parsed_test_case::ParsedTestCase::parse"): {
+        "stmts": "try(Parser::parse_stmt_block(%s, Option::None{}))" % _PARSER,
+        "signals": "%s.0" % _HP,
+        "signal_spans": "%s.1" % _HP,
+        "virtual_signals": "Parser::finish(%s).virtual_signals" % _PARSER,
+        "expected_inputs": "Parser::finish(%s).expected_inputs" % _PARSER,
+        "read_outputs": "Parser::finish(%s).read_outputs" % _PARSER,
+    },
+    ("TestCase", "parsed_test_case::ParsedTestCase::with_signals"): {
+        "stmts": "self.stmts",
+        "signals": "signals",
+        "input_indices": "ParsedTestCase::build_indices(self, signals).0",
+        "expected_indices": "ParsedTestCase::build_indices(self, signals).1",
+        "read_outputs": "try(ParsedTestCase::build_read_outputs(self, signals))",
+    },
+    ("data_row_iterator::DataRowIteratorTestData", "data_row_iterator::DataRowIteratorTestData::new"): {
+        "signals": "test_case.signals",
+        "iter": "StmtIterator::new(test_case.stmts)",
+        "input_indices": "test_case.input_indices",
+        "expected_indices": "test_case.expected_indices",
+    },
+}
+
+
+def plumbing_rule(chk, P, fields):
+    """The parser's result reaches the interpreter untouched: each named field of ParsedTestCase / TestCase / the iterator's
+    test data is built, at the single place where the struct is built, from exactly the confirmed term (an in-place edit
+    on the way shows as `mut!(..)`), and is not written afterwards.  `fields`: {ADT short name: (field, ..)}."""
+    for (adt, fn), want in sorted(PLUMBING.items()):
+        short_adt = adt.split("::")[-1]
+        sel = fields.get(short_adt)
+        if not sel:
+            continue
+        sites = [(cb, bb, i, st) for (cb, bb, i, st) in P.constructors(adt) if not cb.derived]
+        if not chk.require(len(sites) == 1 and sites[0][0].name == fn, "WHO", "PLUMB:%s:built-in-one-place" % short_adt, fn.split("::")[-1],
+                           "%s is built in %s" % (short_adt, sorted(set(s[0].name for s in sites)))):
+            continue
+        cb, bb, i, st = sites[0]
+        got = {k: canon(v) for k, v in P.sl(cb).rvalue(st["rv"], bb, i)[3]}
+        for f in sel:
+            chk.require(got.get(f) == want[f], "ORG", "PLUMB:%s.%s" % (short_adt, f), want[f], "%s.%s is built from `%s`, not from `%s`" % (short_adt, f, got.get(f), want[f]), "%s:%d" % (cb.file, cb.line))
+            if f != "iter":
+                w = sorted(set(x[0].name for x in P.field_writers(adt, f)))
+                chk.require(set(w) <= set(PLUMB_WRITERS.get((short_adt, f), [])), "WHO", "PLUMB:%s.%s:unwritten" % (short_adt, f), str(w), "%s.%s is written after construction in %s" % (short_adt, f, w))
+
+
+# consumed (drained) while binding, by the confirmed functions only
+PLUMB_WRITERS = {
+    ("ParsedTestCase", "virtual_signals"): ["parsed_test_case::ParsedTestCase::with_signals"],
+    ("ParsedTestCase", "expected_inputs"): ["parsed_test_case::ParsedTestCase::check_and_consume_expected_inputs"],
+    ("ParsedTestCase", "read_outputs"): ["parsed_test_case::ParsedTestCase::build_read_outputs"],
+}
